@@ -760,13 +760,14 @@ structure Flags where
   d : Bool := false   -- a template uses the spelling of one of its own binders outside that binder's scope
   f : Bool := false   -- a pattern variable is used under more ellipses than it has in the pattern
   g : Bool := false   -- an expansion produced a `define-syntax` form (macro-defining macro)
+  j : Bool := false   -- a template list contains two ellipses (`expand_ellipses` expands only the first)
   deriving DecidableEq, Repr, Inhabited
 
 def Flags.or (x y : Flags) : Flags :=
   { a := x.a || y.a, b := x.b || y.b, c := x.c || y.c, d := x.d || y.d, f := x.f || y.f,
-    g := x.g || y.g }
+    g := x.g || y.g, j := x.j || y.j }
 
-def Flags.none (x : Flags) : Bool := !(x.a || x.b || x.c || x.d || x.f || x.g)
+def Flags.none (x : Flags) : Bool := !(x.a || x.b || x.c || x.d || x.f || x.g || x.j)
 
 /-! Static properties of one case that the classification reports (computed at definition time). -/
 
@@ -784,6 +785,16 @@ def depthMismatchItems (ds : List (Name × Nat)) : Nat → Nat → List Sexp →
   | f + 1, d, x :: y :: rest =>
       if isEll y then depthMismatch ds f (d + 1) x || depthMismatchItems ds f d rest
       else depthMismatch ds f d x || depthMismatchItems ds f d (y :: rest)
+end
+
+mutual
+/-- `j`: some list of the template contains two ellipsis tokens. -/
+def twoEll : Sexp → Bool
+  | .list xs _ => decide (2 ≤ (xs.filter isEll).length) || twoEllList xs
+  | _ => false
+def twoEllList : List Sexp → Bool
+  | [] => false
+  | x :: xs => twoEll x || twoEllList xs
 end
 
 def pairBinders (pairs : List Sexp) : List Name :=
@@ -851,7 +862,8 @@ def compileCase (name : Name) (lits : List Name) (pattern body : Sexp) : Except 
             let fo := freeOcc (2 * body.size + 2) [] body
             let sfl : Flags :=
               { d := r.2.any (fun x => fo.contains x),
-                f := depthMismatch depths (2 * body.size + 2) 0 body }
+                f := depthMismatch depths (2 * body.size + 2) 0 body,
+                j := twoEll body }
             .ok { pats := Pat.mangleList pats, body := r.1, intro := r.2, depths := depths, sflags := sfl }
   | _ => .error .badSyntax
 
